@@ -65,7 +65,6 @@ theorem pres_foldRes (w : World) (f : Nat → St → Res) (hf : ∀ k, Pres w (f
       obtain ⟨h3, h4⟩ := hf k s s1 hk h1
       exact ⟨h3, fun hi => h2 (h4 hi)⟩
     | err _ => simp [hk] at h
-    | panic _ => simp [hk] at h
     | outOfFuel => simp [hk] at h
 
 /-- the step that runs the backtrack callbacks: this is where `TextIsGlobal` is needed -/
@@ -85,36 +84,26 @@ theorem unvisit_inv (w : World) (hT : TextIsGlobal w) (t : Text) (o : Obj) (n : 
     simp only [List.mem_filter] at hm
     exact hp t' m hm.1
   | some v' =>
-    simp only at h
-    split at h
-    · cases h
-    · rename_i hany
-      simp only [Res.ok.injEq] at h; subst h
-      obtain ⟨cx', tgt, tn, f, ht, htn, hk, hd⟩ := hv v' rfl
-      refine ⟨rfl, ?_, ?_⟩
-      · intro a b hab
-        simp only [List.mem_append, List.mem_map, List.mem_filter] at hab
-        rcases hab with hab | ⟨p, ⟨hpm, hpt⟩, hpe⟩
-        · exact hg a b hab
-        · obtain ⟨pt, pm⟩ := p
-          simp only [Prod.mk.injEq] at hpe; obtain ⟨rfl, rfl⟩ := hpe
-          have hpt' : pt = t := by simpa using hpt
-          subst hpt'
-          obtain ⟨nm, hnm, hrm⟩ := hp _ _ hpm
-          have hkm : nm.kind = n.kind := by
-            have h1 : ¬ (kindOf w pm != some n.kind) = true := by
-              intro hc
-              apply hany
-              simp only [List.any_eq_true, List.mem_filter]
-              exact ⟨(pt, pm), ⟨hpm, by simp⟩, hc⟩
-            simp [kindOf, hnm] at h1
-            exact h1
-          have htm : w.target nm.home pt n.kind = some (cx', tgt) := by
-            rw [← hkm, hT pm o nm n pt hnm hn hrm hr hkm]; exact ht
-          exact ⟨f + 1, by simp [designates, hnm, hrm, hkm, htm, htn, hk, hd]⟩
-      · intro t' m hm
-        simp only [List.mem_filter] at hm
-        exact hp t' m hm.1
+    simp only [Res.ok.injEq] at h; subst h
+    obtain ⟨cx', tgt, tn, f, ht, htn, hk, hd⟩ := hv v' rfl
+    refine ⟨rfl, ?_, ?_⟩
+    · intro a b hab
+      simp only [List.mem_append, List.mem_map, List.mem_filter] at hab
+      rcases hab with hab | ⟨p, ⟨⟨hpm, hpt⟩, hfit⟩, hpe⟩
+      · exact hg a b hab
+      · obtain ⟨pt, pm⟩ := p
+        simp only [Prod.mk.injEq] at hpe; obtain ⟨rfl, rfl⟩ := hpe
+        have hpt' : pt = t := by simpa using hpt
+        subst hpt'
+        obtain ⟨nm, hnm, hrm⟩ := hp _ _ hpm
+        have hkm : nm.kind = n.kind := by
+          simpa [kindOf, hnm] using hfit
+        have htm : w.target nm.home pt n.kind = some (cx', tgt) := by
+          rw [← hkm, hT pm o nm n pt hnm hn hrm hr hkm]; exact ht
+        exact ⟨f + 1, by simp [designates, hnm, hrm, hkm, htm, htn, hk, hd]⟩
+    · intro t' m hm
+      simp only [List.mem_filter] at hm
+      exact hp t' m hm.1
 
 /-- a copy (of a reference) designates what its original designates -/
 theorem designates_copy (w : World) (hC : CopyOK w) (c r : Obj) (n : Node) (hn : w.node c = some n)
@@ -186,16 +175,12 @@ theorem finish_inv (w : World) (hT : TextIsGlobal w) (rs : Nat → St → Res) (
     cases hf : foldRes rs (if rw = true then ((w.node v').map (·.kids)).getD [] else [])
         { s with value := s.value ++ [(o, v')] } with
     | err _ => simp [hf] at h
-    | panic _ => simp [hf] at h
     | outOfFuel => simp [hf] at h
     | ok s2 =>
       simp only [hf] at h
       have hfl2 : s2.foreign = false := by
         unfold unvisit at h
-        simp only at h
-        split at h
-        · cases h
-        · simp only [Res.ok.injEq] at h; subst h; exact hfl
+        simp only [Res.ok.injEq] at h; subst h; exact hfl
       obtain ⟨h1, h2⟩ := pres_foldRes w rs hrs _ _ s2 hf hfl2
       refine ⟨h1, fun hi hv => ?_⟩
       obtain ⟨cx', tgt, tn, f, ht, htn, hk, hd⟩ := hv v' rfl
@@ -208,6 +193,28 @@ theorem finish_inv (w : World) (hT : TextIsGlobal w) (rs : Nat → St → Res) (
         · exact ⟨f + 1, by simp [designates, hn, hr, ht, htn, hk, hd]⟩
       exact (unvisit_inv w hT t o n (some v') s2 s' hn hr (h2 hi1)
         (by intro v'' hv''; cases hv''; exact ⟨cx', tgt, tn, f, ht, htn, hk, hd⟩) h).2
+
+theorem markDone_ok (o : Obj) (r : Res) (s' : St) (h : markDone o r = .ok s') :
+    ∃ s4, r = .ok s4 ∧ s' = { s4 with done := s4.done ++ [o] } := by
+  cases r with
+  | ok s4 => simp only [markDone, Res.ok.injEq] at h; exact ⟨s4, rfl, h.symm⟩
+  | err _ => simp [markDone] at h
+  | outOfFuel => simp [markDone] at h
+
+theorem inv_done (w : World) (s : St) (d : List Obj) (h : Inv w s) : Inv w { s with done := d } :=
+  ⟨by simpa [Good] using h.1, by simpa [PendingOK] using h.2⟩
+
+theorem pres_markDone (w : World) (o : Obj) (f : St → Res) (hf : Pres w f) : Pres w (fun s => markDone o (f s)) := by
+  intro s s' h hfl
+  cases hr : f s with
+  | ok s1 =>
+    simp only [hr, markDone, Res.ok.injEq] at h; subst h
+    obtain ⟨a, b⟩ := hf s s1 hr hfl
+    exact ⟨a, fun hi => by
+      have := b hi
+      exact ⟨by simpa [Good] using this.1, by simpa [PendingOK] using this.2⟩⟩
+  | err _ => simp [hr, markDone] at h
+  | outOfFuel => simp [hr, markDone] at h
 
 /-- Invariant preservation of the whole resolution, by induction on fuel. -/
 theorem resolve_pres (w : World) (hT : TextIsGlobal w) (hC : CopyOK w) : ∀ fuel cx o, Pres w (resolve w fuel cx o) := by
@@ -224,14 +231,18 @@ theorem resolve_pres (w : World) (hT : TextIsGlobal w) (hC : CopyOK w) : ∀ fue
       cases hr : n.ref with
       | none =>
         simp only [hr] at h
-        exact pres_foldRes w _ (fun k => ih cx k) _ s s' h hfl
+        exact pres_markDone w o _ (pres_foldRes w _ (fun k => ih cx k) _) s s' h hfl
       | some t =>
         simp only [hr] at h
         by_cases h1 : (getC w s o).isSome = true
-        · rw [if_pos h1] at h; cases h; exact ⟨hfl, id⟩
+        · rw [if_pos h1] at h
+          exact pres_markDone w o (fun s => .ok s) (fun s s' h hf => by cases h; exact ⟨hf, id⟩) s s' h hfl
         · rw [if_neg h1] at h
           by_cases h2 : s.inprog.contains t = true
-          · rw [if_pos h2] at h; simp only [Res.ok.injEq] at h; subst h
+          · rw [if_pos h2] at h
+            refine pres_markDone w o (fun s => .ok { s with pending := s.pending ++ [(t, o)], nback := s.nback + 1 }) ?_ s s' h hfl
+            intro s s' h hfl
+            simp only [Res.ok.injEq] at h; subst h
             refine ⟨hfl, fun hi => ⟨hi.1, ?_⟩⟩
             intro t' m hm
             simp only [List.mem_append, List.mem_singleton, Prod.mk.injEq] at hm
@@ -242,17 +253,18 @@ theorem resolve_pres (w : World) (hT : TextIsGlobal w) (hC : CopyOK w) : ∀ fue
             cases hr1 : loadDoc w (fun l k s => resolve w fuel l k s) (w.docOf cx t)
                 { s with inprog := s.inprog ++ [t], foreign := s.foreign || (cx != n.home) } with
             | err _ => simp [hr1] at h
-            | panic _ => simp [hr1] at h
             | outOfFuel => simp [hr1] at h
             | ok s2 =>
               simp only [hr1] at h
               have hL := pres_loadDoc w (fun l k s => resolve w fuel l k s) (fun l k => ih l k) (w.docOf cx t) _ s2 hr1
               have key : s2.foreign = false ∧ (cx = n.home → Inv w s2 → Inv w s') := by
                 by_cases hE : w.emptyTarget cx t n.kind = true
-                · rw [if_pos hE] at h; cases h; exact ⟨hfl, fun _ hi => hi⟩
+                · rw [if_pos hE] at h
+                  simp only [markDone, Res.ok.injEq] at h; subst h
+                  exact ⟨hfl, fun _ hi => ⟨by simpa [Good] using hi.1, by simpa [PendingOK] using hi.2⟩⟩
                 rw [if_neg hE] at h
                 cases ht : w.target cx t n.kind with
-                | none => simp only [ht] at h; split at h <;> cases h
+                | none => simp only [ht] at h; cases h
                 | some p =>
                   obtain ⟨cx', tgt⟩ := p
                   simp only [ht] at h
@@ -262,24 +274,18 @@ theorem resolve_pres (w : World) (hT : TextIsGlobal w) (hC : CopyOK w) : ∀ fue
                     simp only [htn] at h
                     by_cases hk : tn.kind = n.kind
                     · simp only [hk, ne_eq, not_true_eq_false, if_false] at h
-                      by_cases hpi : n.kind = Kind.pathItem ∧ tn.ref.isSome = true
-                      · rw [if_pos hpi] at h
-                        obtain ⟨a, b⟩ := finish_inv w hT _ (fun k => ih cx k) t o n false (s2.get tgt) s2 s' hn hr h hfl
-                        refine ⟨a, fun hcx hi => b hi (fun v' hv' => ?_)⟩
-                        have hd := hi.1 _ _ (get_mem _ _ _ hv')
-                        exact ⟨cx', tgt, tn, hd.choose, hcx ▸ ht, htn, hk, hd.choose_spec⟩
-                      · rw [if_neg hpi] at h
-                        cases hres : resolve w fuel cx' tgt s2 with
-                        | err _ => simp [hres] at h
-                        | panic _ => simp [hres] at h
-                        | outOfFuel => simp [hres] at h
-                        | ok s3 =>
-                          simp only [hres] at h
-                          obtain ⟨a, b⟩ := finish_inv w hT _ (fun k => ih cx k) t o n _ (valueOf w tgt s3) s3 s' hn hr h hfl
-                          obtain ⟨c, d⟩ := ih cx' tgt s2 s3 hres a
-                          refine ⟨c, fun hcx hi => b (d hi) (fun v' hv' => ?_)⟩
-                          obtain ⟨f, hf⟩ := valueOf_designates w hC tgt tn s3 v' htn (d hi).1 hv'
-                          exact ⟨cx', tgt, tn, f, hcx ▸ ht, htn, hk, hf⟩
+                      cases hres : resolve w fuel cx' tgt s2 with
+                      | err _ => simp [hres] at h
+                      | outOfFuel => simp [hres] at h
+                      | ok s3 =>
+                        simp only [hres] at h
+                        obtain ⟨s4, hfin, rfl⟩ := markDone_ok _ _ _ h
+                        have hfl4 : s4.foreign = false := hfl
+                        obtain ⟨a, b⟩ := finish_inv w hT _ (fun k => ih _ k) t o n _ (valueOf w tgt s3) s3 s4 hn hr hfin hfl4
+                        obtain ⟨c, d⟩ := ih cx' tgt s2 s3 hres a
+                        refine ⟨c, fun hcx hi => inv_done w _ _ (b (d hi) (fun v' hv' => ?_))⟩
+                        obtain ⟨f, hf⟩ := valueOf_designates w hC tgt tn s3 v' htn (d hi).1 hv'
+                        exact ⟨cx', tgt, tn, f, hcx ▸ ht, htn, hk, hf⟩
                     · simp [hk] at h
               obtain ⟨k1, k2⟩ := key
               obtain ⟨l1, l2⟩ := hL k1
